@@ -477,8 +477,9 @@ impl Check for C08Large {
     }
     fn strategy(&self, t: Tier) -> BoxedStrategy<CaseLarge> {
         let max_n: u32 = t.pick(6_000, 70_000);
-        let n = prop_oneof![3 => 1_030u32..3_000, 2 => 3_000u32..max_n, 1 => 200u32..1_030];
-        (n, any::<u64>(), 1u8..5, prop_oneof![Just(0u8), Just(0u8), 2u8..20], prop_oneof![1 => Just(0u8), 4 => Just(1u8), 2 => Just(2u8), 1 => Just(3u8)], any::<bool>(), prop::bool::weighted(0.15), prop_oneof![4 => Just(0u8), 1 => Just(1u8), 1 => Just(2u8)], (0u8..10, any::<u16>()), (0u8..12, any::<u16>()), prop_oneof![4 => Just(0u32), 1 => prop::sample::select(vec![2u32, 7, 511, 512, 513, 1024, 1025])])
+        // one case in thirty has more than 2^16 rows (a counter or bound of 16 bits shows only there)
+        let n = prop_oneof![15 => 1_030u32..3_000, 10 => 3_000u32..max_n, 5 => 200u32..1_030, 1 => 65_530u32..70_000];
+        (n, any::<u64>(), 1u8..5, prop_oneof![Just(0u8), Just(0u8), 2u8..20], prop_oneof![1 => Just(0u8), 4 => Just(1u8), 2 => Just(2u8), 1 => Just(3u8)], any::<bool>(), prop::bool::weighted(0.15), prop_oneof![4 => Just(0u8), 1 => Just(1u8), 1 => Just(2u8)], (0u8..11, any::<u16>()), (0u8..13, any::<u16>()), prop_oneof![4 => Just(0u32), 1 => prop::sample::select(vec![2u32, 7, 511, 512, 513, 1024, 1025])])
             .prop_map(|(n, seed, keys, absent_every, sort, desc, unique, group, (sk, sr), (tk, tr), run_len)| {
                 let frac = |r: u16, m: u32| ((r as u64 * (m as u64 + 1)) >> 16) as u32;
                 let skip = match sk {
@@ -489,6 +490,7 @@ impl Check for C08Large {
                     6 => frac(sr, n),
                     7 => 1000 + frac(sr, 100),
                     8 => n.saturating_sub(1),
+                    10 => if n > 65_536 { 65_530 + frac(sr, 12) } else { frac(sr, 40) },
                     _ => frac(sr, 40),
                 };
                 let take = match tk {
@@ -501,6 +503,7 @@ impl Check for C08Large {
                     6 => Some(1023 + frac(tr, 3)),
                     7 => Some(frac(tr, n)),
                     8 => Some(n),
+                    12 => Some(if n > 65_536 { 65_530 + frac(tr, 12) } else { 1 + frac(tr, 30) }),
                     _ => Some(1 + frac(tr, 30)),
                 };
                 CaseLarge { n, seed, keys, absent_every, sort, desc, unique, group, skip, take, run_len }
